@@ -43,8 +43,8 @@ macro_rules! impl_tower2 {
                 let c1 = $base::from_bytes(bytes[$base::SIZE..$base::SIZE * 2].try_into().unwrap());
                 CtOption::new(
                     $field {
-                        c0: c0.unwrap(),
-                        c1: c1.unwrap(),
+                        c0: c0.unwrap_or($base::ZERO),
+                        c1: c1.unwrap_or($base::ZERO),
                     },
                     c0.is_some() & c1.is_some(),
                 )
